@@ -107,6 +107,27 @@ int main(void) {
             if (ac) krb5_auth_con_free(ctx, ac);
             if (server) krb5_free_principal(ctx, server);
             if (!rc || kt) krb5_kt_close(ctx, kt);
+        } else if (!strcmp(tok[0], "client") && nt == 4) {
+            /* client <user@REALM> <password> <service@REALM> : MIT's client gets a TGT with the password and a service ticket from the KDC
+             * of KRB5_CONFIG, then builds an AP-REQ for the service (krb5_mk_req_extended) */
+            krb5_principal me = NULL, svc = NULL; krb5_creds tgt, in, *out = NULL; krb5_ccache cc = NULL; krb5_auth_context ac = NULL; krb5_data ap = {0, 0, NULL};
+            memset(&tgt, 0, sizeof tgt); memset(&in, 0, sizeof in);
+            krb5_get_init_creds_opt *opt = NULL;
+            krb5_error_code rc = krb5_parse_name(ctx, tok[1], &me); int stage = 0;
+            if (!rc) { stage = 1; rc = krb5_get_init_creds_opt_alloc(ctx, &opt); }
+            if (!rc) { stage = 2; rc = krb5_get_init_creds_password(ctx, &tgt, me, tok[2], NULL, NULL, 0, NULL, opt); }
+            if (!rc) { stage = 3; rc = krb5_cc_new_unique(ctx, "MEMORY", NULL, &cc); }
+            if (!rc) rc = krb5_cc_initialize(ctx, cc, me);
+            if (!rc) rc = krb5_cc_store_cred(ctx, cc, &tgt);
+            if (!rc) { stage = 4; rc = krb5_parse_name(ctx, tok[3], &svc); }
+            if (!rc) { in.client = me; in.server = svc; stage = 5; rc = krb5_get_credentials(ctx, 0, cc, &in, &out); }
+            if (!rc) { stage = 6; rc = krb5_mk_req_extended(ctx, &ac, 0, NULL, out, &ap); }
+            if (!rc) stage = 7;
+            printf("{\"rc\":%d,\"stage\":%d,", (int)rc, stage); puthex("apreq", (unsigned char *)ap.data, rc ? 0 : ap.length);
+            printf(",\"tgtEtype\":%d,\"svcEtype\":%d,", (int)tgt.keyblock.enctype, out ? (int)out->keyblock.enctype : 0);
+            puthex("svcKey", out ? out->keyblock.contents : (unsigned char *)"", out ? out->keyblock.length : 0);
+            const char *msg = rc ? krb5_get_error_message(ctx, rc) : "";
+            printf(",\"msg\":\""); for (const char *p = msg; *p; p++) if (*p != '"' && *p != '\\' && (unsigned char)*p >= 32) putchar(*p); printf("\",\"out\":\"\"}\n");
         } else if (!strcmp(tok[0], "cc") && nt == 2) {
             char name[4200]; snprintf(name, sizeof name, "FILE:%s", tok[1]);
             krb5_ccache cc; krb5_cc_cursor cur; krb5_creds c; krb5_principal dp = NULL;
